@@ -71,7 +71,15 @@ class FnContract:
                 if p in self.outs:
                     r.outs[p] = fresh_int(self.name + "_" + p)
             for label, g in self.ensures(a, r):
-                st.assume(g)
+                # a clause of the form  out == expr  defines the output: store expr itself
+                defined = False
+                if z3.is_eq(g):
+                    for p in list(r.outs):
+                        if isinstance(r.outs[p], z3.ExprRef) and z3.eq(g.arg(0), r.outs[p]) and z3.is_const(r.outs[p]):
+                            r.outs[p] = g.arg(1)
+                            defined = True
+                if not defined:
+                    st.assume(g)
             for p, v in zip(self.ins, args):
                 if p in self.outs:
                     if not isinstance(v, Ptr) or v.obj is None:
